@@ -69,7 +69,7 @@ def behaviours_of(res):
 
 def nontrivial(b):
     """Non-trivial: a sequence of at least two transactions, or a single transaction whose class is not the plain valid one."""
-    if b.get("kind") in ("sig", "sigseq", "vsweep", "applybig"):
+    if b.get("kind") in ("sig", "sigseq", "objseq", "vsweep", "applybig"):
         return True
     txs = b.get("txs", [])
     if len(txs) >= 2:
@@ -102,6 +102,10 @@ def generate(ctx):
     # signature part: one transaction object (24 classes x 15 mutations) resolved under every sequence of up to 3 (4) signers,
     # with the sender cache as state
     msig = ctx.tlc_must("TxApply", msig_cfg(3 if quick else 4), name="M_sender_cache", timeout=900)
+    # ... and object re-use: 4 classes x every sequence of up to 3 (4) operations {home, foreign, hash, apply, json, rlp, rlpstream}
+    mobj = ctx.tlc_must("TxApply", msig_cfg(3 if quick else 4).replace('Alphabet = "sig"', 'Alphabet = "obj"'), name="M_object_reuse", timeout=900)
+    if mobj.violated:
+        raise vlib.Undecided("design-level violation in the object re-use part (%s): specification error" % mobj.violated)
     ctx.cov["exhaustive"] = m1.ok and m3.ok and msig.ok
     if msig.violated:
         raise vlib.Undecided("design-level violation in the signature part (%s): specification error" % msig.violated)
@@ -116,12 +120,13 @@ def generate(ctx):
     g3 = ctx.tlc_must("TxApply", g_cfg(3, "seq", POOL3, versions="5" if quick else "3, 4, 5"), name="G1_sequences", timeout=900)
     gs = ctx.tlc_must("TxApply", g_cfg(0, "seq", POOL1, mode="sig"), name="G1_signatures", timeout=300)
     gq = ctx.tlc_must("TxApply", g_cfg(2 if quick else 3, "sig", POOL1, mode="sigseq"), name="G1_sender_cache", timeout=600)
+    go = ctx.tlc_must("TxApply", g_cfg(3 if quick else 4, "obj", POOL1, mode="objseq"), name="G1_object_reuse", timeout=600)
     # V sweep: 12 classes x network ids {1, 2, 99} x every V in 0 .. 2*net + 40
     gv = ctx.tlc_must("TxApply", g_cfg(0, "seq", POOL1, mode="vsweep"), name="G1_v_sweep", timeout=300)
     # big-number stage: 8 price x 3 limit x 5 affordability x 4 value classes, both call patterns; magnitudes up to 2^255 are
     # chosen by the driver, travel as decimal strings and are judged with exact arithmetic (BigWord override)
     gb = ctx.tlc_must("TxApply", g_cfg(0, "seq", POOL1, mode="big", versions="5" if quick else "4, 5"), name="G1_big_numbers", timeout=300)
-    b1, b3, bs = behaviours_of(g1), behaviours_of(g3), behaviours_of(gs) + behaviours_of(gq) + behaviours_of(gv) + behaviours_of(gb)
+    b1, b3, bs = behaviours_of(g1), behaviours_of(g3), behaviours_of(gs) + behaviours_of(gq) + behaviours_of(gv) + behaviours_of(gb) + behaviours_of(go)
     rnd = random.Random(ctx.seed)
     if quick:
         # the quick tier keeps every class combination with price 1 or 3 and a seeded half of the sequences
